@@ -528,7 +528,14 @@ def corpus_specs(thorough):
         opts, lang, wv = shroudrun.parse_cmdline(extra)
         own = [d for d in allinc if os.path.basename(d) in (n, y)]
         inc = own + [d for d in allinc if d not in own]
-        base = dict(tag=n, config=n, yaml=shroudrun.corpus_yaml(y), options=["debug_testsuite=true"] + opts, language=lang, incdirs=inc,
+        try:
+            ytxt = open(shroudrun.corpus_yaml(y)).read()
+        except OSError:
+            ytxt = ""
+        hdrs = re.findall(r"^cxx_header\s*:\s*(.+)$", ytxt, re.M)
+        hnames = [h for h in (hdrs[0].split() if hdrs else [])]
+        own_header = bool(hnames) and all(any(os.path.exists(os.path.join(d, h)) for d in own) for h in hnames)
+        base = dict(own_header=own_header, tag=n, config=n, yaml=shroudrun.corpus_yaml(y), options=["debug_testsuite=true"] + opts, language=lang, incdirs=inc,
                     write_version=wv)
         specs.append(base)
         if n in QUICK_VARIANT_CONFIGS or (thorough and n not in EXCLUDE_COMPILE and not opts):
@@ -571,21 +578,90 @@ def gen_specs(r, thorough):
     return specs
 
 
+def feature_specs(r, thorough):
+    """options x features matrix (tools/gen/c05gen.py): thorough = every option variant x every feature; quick = every feature
+    x {base, debug, lines} plus a rotating variant.  Returns (specs, matrix)."""
+    from tools.gen import c05gen, hdrgen
+    variants = [("base", [])] + GEN_VARIANTS
+    specs, matrix = [], {}
+    n = 0
+    for fi, feat in enumerate(c05gen.FEATURES):
+        if thorough:
+            vs = variants
+        else:
+            names = {"base", "debug", "lines", variants[1 + (fi + common.seed()) % (len(variants) - 1)][0]}
+            if feat == "callback":
+                names |= {"cfi-debug", "cline40"}
+            vs = [v for v in variants if v[0] in names]
+        for vn, vopts in vs:
+            cfi = any(o.startswith("F_CFI") for o in vopts)
+            lib = c05gen.gen(r, feat, allow_vector=not cfi)
+            n += 1
+            for f in lib["features"]:
+                matrix.setdefault(f, {}).setdefault(vn, 0)
+                matrix[f][vn] += 1
+            specs.append(dict(tag="fgen%d:%s+%s" % (n, feat, vn), config="fgen", yaml_text=lib["yaml_text"], yaml_name="flib.yaml",
+                              options=["wrap_python=false", "wrap_lua=false"] + list(vopts), language=None, incdirs=[],
+                              headers=hdrgen.headers_from_dict(lib["dict"]), defines=lib["defines"], gen=True,
+                              features=lib["features"]))
+    return specs, matrix
+
+
+BASELINE = os.path.join(common.CORPUS, "c05_baseline.json")
+
+
+def load_baseline():
+    try:
+        return json.load(open(BASELINE))
+    except (OSError, ValueError):
+        return {}
+
+
+def write_baseline():
+    """explicit command (`python -m tools.props.c05 --write-baseline`): per upstream configuration and variant, the verdict of
+    every compiler run on the CURRENT /repo tree.  Never written at check time."""
+    from tools import compile_oracle as co
+    specs = corpus_specs(True)
+    with pool() as ex:
+        results = list(ex.map(co.job, specs))
+    base = {}
+    for spec, res in zip(specs, results):
+        if res["exc"]:
+            base[spec["tag"]] = {"__shroud__": "exc:" + res["exc"][:120]}
+            continue
+        base[spec["tag"]] = {"%s|%s" % (x["file"], x["tool"]): (x["status"] if x["status"] != "fail" else "fail:" + x["err"])
+                             for x in res["results"]}
+        base[spec["tag"]]["__shroud__"] = "ok"
+    json.dump({"repo_commit": os.popen("git -C %s rev-parse --short HEAD" % common.REPO).read().strip(), "verdicts": base},
+              open(BASELINE, "w"), indent=0, sort_keys=True)
+    return len(base)
+
+
 IDENT_ERR = re.compile(r"[‘'`]([A-Za-z_][\w:]*)[’']")
 
 
-def excluded(spec, res, yaml_text):
-    """documented exclusion rules for a compile failure; returns reason or None"""
+def excluded(spec, res, yaml_text, baseline):
+    """documented exclusion rules for a compile failure; returns reason or None.
+    * never for generated libraries (their headers are synthesized from the description: every failure is ours);
+    * never when the committed baseline (corpus/c05_baseline.json) says this file compiled with this tool for this
+      configuration: what used to compile and now fails is a failing input;
+    * rule A (library header does not declare what the description describes) only for configurations whose library header
+      upstream does not ship (spec['own_header'] is False), and only when the first error names an identifier written in the
+      YAML description itself;
+    * rule C: symbols of another wrapped library (forward.yaml imports tutorial's generated types)."""
+    if spec.get("gen"):
+        return None
+    b = baseline.get(spec["tag"], {}).get("%s|%s" % (res["file"], res["tool"]))
+    if b == "ok":
+        return None
     cfg = spec["config"]
     err = res.get("err", "")
-    # rule A: the library's header does not declare what the description describes.  The first error names an
-    # identifier that is written in the YAML description itself (a user symbol, never a generated one).
-    if re.search(r"not a member of|has not been declared|was not declared in this scope|does not name a type|not declared", err):
+    if not spec.get("own_header") and \
+            re.search(r"not a member of|has not been declared|was not declared in this scope|does not name a type|not declared", err):
         for ident in IDENT_ERR.findall(err):
             last = ident.split("::")[-1]
             if re.search(r"\b%s\b" % re.escape(last), yaml_text) and not last.startswith(("SH_", "SHT_", "SHC_", "Shroud")):
-                return "library header does not declare %s (symbol of the description, not generated)" % last
-    # rule C: symbols of another wrapped library
+                return "upstream ships no library header for this configuration; %s is a symbol of the description" % last
     for sym in EXTERNAL_SYMBOLS.get(cfg, []):
         if sym in err:
             return "needs the generated wrapper of another library (%s)" % sym
@@ -594,7 +670,9 @@ def excluded(spec, res, yaml_text):
 
 def compile_oracle(ctx, r, thorough):
     from tools import compile_oracle as co
-    specs = read_corpus()[0] + corpus_specs(thorough) + gen_specs(r, thorough)
+    fspecs, matrix = feature_specs(r, thorough)
+    baseline = load_baseline().get("verdicts", {})
+    specs = read_corpus()[0] + corpus_specs(thorough) + gen_specs(r, thorough) + fspecs
     with pool() as ex:
         results = list(ex.map(co.job, specs))
     # /repo is a shared working tree: a worker that imports shroud while another agent is writing a module sees a half
@@ -638,7 +716,7 @@ def compile_oracle(ctx, r, thorough):
             if x["status"] == "skip":
                 skipped[x["why"]] = skipped.get(x["why"], 0) + 1
             elif x["status"] == "fail":
-                why = excluded(spec, x, ytext)
+                why = excluded(spec, x, ytext, baseline)
                 if why:
                     excl["%s:%s" % (tag, x["file"])] = why
                     continue
@@ -656,6 +734,7 @@ def compile_oracle(ctx, r, thorough):
         "files_by_tool_status": {"%s/%s" % k: v for k, v in sorted(stats.items())},
         "skipped": skipped, "excluded_by_rule": dict(list(excl.items())[:40]), "excluded_count": len(excl),
         "duplicate_include_lines_seen": ndup[:10], "rejected_with_diagnostic": rejected,
+        "options_x_features_matrix": matrix, "baseline_entries": len(baseline),
     })
     ctx.sample({"compile": {"configurations": len(specs), "ok_files": sum(v for k, v in stats.items() if k[1] == "ok")}})
 
@@ -681,7 +760,7 @@ def read_corpus():
                 if n == name:
                     o, lang, wv = shroudrun.parse_cmdline(extra)
                     own = [d for d in allinc if os.path.basename(d) in (n, y)]
-                    specs.append(dict(tag="corpus-file:%s+%s" % (n, opts), config=n, yaml=shroudrun.corpus_yaml(y),
+                    specs.append(dict(own_header=bool(own), tag="corpus-file:%s+%s" % (n, opts), config=n, yaml=shroudrun.corpus_yaml(y),
                                       options=["debug_testsuite=true"] + o + ([] if opts == "-" else opts.split(",")), language=lang,
                                       incdirs=own + [d for d in allinc if d not in own], write_version=wv))
         elif kind == "gather":
@@ -751,3 +830,9 @@ def replay(path):
         print(b["kind"], b["name"])
         print(str(b["detail"])[:2000])
     return 0
+
+
+if __name__ == "__main__":
+    import sys
+    if "--write-baseline" in sys.argv:
+        print("baseline configurations:", write_baseline())
